@@ -316,6 +316,19 @@ impl SubRule {
         }
     }
 
+    /// Steps past a literal segment that has just been matched: a length modifier speaks about the whole long segment, which is then
+    /// stepped over as a whole; without one the literal stands for one copy
+    fn step_past_ipa(mods: &Option<Modifiers>, word: &Word, pos: &mut SegPos) {
+        if mods.as_ref().is_some_and(|m| m.suprs.length.iter().any(|l| l.is_some())) {
+            let mut seg_length = word.seg_length_at(*pos);
+            while seg_length > 1 {
+                pos.increment(word);
+                seg_length -= 1;
+            }
+        }
+        pos.increment(word);
+    }
+
     fn context_match_structure(&self, items: &[Item], stress: &[Option<ModKind>; 2], tone: &Option<Tone>, var: &Option<usize>, word: &Word, pos: &mut SegPos, forwards: bool) -> Result<bool, RuleRuntimeError> {
         if items.is_empty() {
             return self.context_match_syll(stress, tone, var, word, pos, forwards)
@@ -356,7 +369,7 @@ impl SubRule {
                     break;
                 } else { return Ok(false) }, 
                 ParseElement::Ipa(s, mods) => if self.context_match_ipa(s, mods, word, *pos, item.position)? {
-                    pos.increment(word);
+                    Self::step_past_ipa(mods, word, pos);
                 } else { return Ok(false) },
                 ParseElement::Matrix(mods, var) => if !self.context_match_matrix(mods, var, word, pos, item.position)? {
                     return Ok(false) 
@@ -2337,7 +2350,7 @@ impl SubRule {
                     break;
                 } else { return Ok(false) },
                 ParseElement::Ipa(s, mods) => if self.context_match_ipa(s, mods, word, *pos, item.position)? {
-                    pos.increment(word);
+                    Self::step_past_ipa(mods, word, pos);
                 } else { return Ok(false) },
                 ParseElement::Matrix(mods, var) => if !self.context_match_matrix(mods, var, word, pos, item.position)? {
                     return Ok(false)
@@ -2345,7 +2358,7 @@ impl SubRule {
                 ParseElement::Variable(num, mods) => match self.variables.borrow_mut().get(&num.value.parse::<usize>().unwrap()) {
                     Some(var) => match var {
                         VarKind::Segment(s, _) => if self.context_match_ipa(s, mods, word, *pos, item.position)? {
-                            pos.increment(word);
+                            Self::step_past_ipa(mods, word, pos);
                         } else { return Ok(false) },
                         VarKind::Syllable(_) => return Err(RuleRuntimeError::SyllVarInsideStruct(item.position)),
                     },
